@@ -497,4 +497,152 @@ theorem dddmpNameOf_varinfo1_supp (hv : f.varinfo = some 1) {permids : List Int}
 
 end Modes
 
+/-! ### the order of the loaded manager, mode by mode -/
+
+theorem insertInt_of_le_all (a : Int) (l : List Int) (h : ∀ b ∈ l, a ≤ b) :
+    insertInt a l = a :: l := by
+  cases l with
+  | nil => rfl
+  | cons b l => simp [insertInt, h b List.mem_cons_self]
+
+theorem sortInts_of_sorted : ∀ (l : List Int), l.Pairwise (· ≤ ·) → sortInts l = l
+  | [], _ => rfl
+  | a :: l, h => by
+    have h' := List.pairwise_cons.mp h
+    show insertInt a (sortInts l) = a :: l
+    rw [sortInts_of_sorted l h'.2, insertInt_of_le_all _ _ h'.1]
+
+theorem enumDict_vals_eq {l : List Tok} (h : l.Nodup) :
+    (enumDict l).map (·.2) = (List.range' 0 l.length).map (fun (i : Nat) => (i : Int)) := by
+  rw [enumDict_eq h, List.map_map, ← List.zipIdx_map_snd 0 l, List.map_map]
+  rfl
+
+/-- the variables keep the relative order of their file levels -/
+theorem DddmpLoaded.mono {levels : List (Tok × Int)} {m : Mgr} (h : DddmpLoaded levels m)
+    {var var' : Tok} {k k' : Int} {i i' : Nat} (hm : (var, k) ∈ levels) (hm' : (var', k') ∈ levels)
+    (hi : m.tbl.vars[var.show]? = some i) (hi' : m.tbl.vars[var'.show]? = some i') (hlt : k < k') :
+    i < i' := by
+  obtain ⟨j, hS, _, hj⟩ := h.rank var k hm
+  obtain ⟨j', hS', _, hj'⟩ := h.rank var' k' hm'
+  rw [hi] at hj; rw [hi'] at hj'
+  cases hj; cases hj'
+  exact sorted_index_lt (sortInts_sorted _) hS hS' hlt
+
+/-- with `.orderedvarnames`: the order of the loaded manager IS that list -/
+theorem DddmpLoaded.ordered {m : Mgr} {ov : List Tok} (h : DddmpLoaded (enumDict ov) m)
+    (hnd : ov.Nodup) :
+    m.nvars = ov.length ∧ ∀ (k : Nat) (var : Tok), ov[k]? = some var →
+      m.tbl.vars[var.show]? = some k ∧ m.tbl.l2v[k]? = some var.show := by
+  constructor
+  · rw [h.nvars, enumDict_eq hnd]; simp
+  · intro k var hk
+    obtain ⟨i, hS, hl, hv⟩ := h.rank var k (enumDict_mem hnd hk)
+    have hsorted : sortInts ((enumDict ov).map (·.2)) = (enumDict ov).map (·.2) := by
+      apply sortInts_of_sorted
+      rw [enumDict_vals_eq hnd, List.pairwise_map]
+      exact (List.pairwise_le_range' (s := 0) (n := ov.length)).imp (fun h => by omega)
+    rw [hsorted, enumDict_vals_eq hnd] at hS
+    have hik : i = k := by
+      rw [List.getElem?_map] at hS
+      cases hr : (List.range' 0 ov.length)[i]? with
+      | none => rw [hr] at hS; cases hS
+      | some v =>
+        rw [hr] at hS
+        obtain ⟨hlt, hval⟩ := List.getElem?_eq_some_iff.mp hr
+        rw [List.getElem_range'] at hval
+        simp only [Option.map_some, Option.some.injEq] at hS
+        omega
+    subst hik
+    exact ⟨hv, hl⟩
+
+/-- without `.orderedvarnames`: the variable of file level `k` sits at the rank of `k` among
+the sorted `.permids` -/
+theorem DddmpLoaded.supp {levels : List (Tok × Int)} {m : Mgr} (h : DddmpLoaded levels m)
+    {permids : List Int} (hv : levels.map (·.2) = sortInts permids) :
+    m.nvars = permids.length ∧ ∀ var k, (var, k) ∈ levels →
+      ∃ i : Nat, (sortInts permids)[i]? = some k ∧ m.tbl.vars[var.show]? = some i ∧
+        m.tbl.l2v[i]? = some var.show := by
+  constructor
+  · rw [h.nvars]
+    have := congrArg List.length hv
+    simp only [List.length_map] at this
+    rw [this]
+    exact (sortInts_perm permids).length_eq
+  · intro var k hm
+    obtain ⟨i, hS, hl, hvv⟩ := h.rank var k hm
+    rw [hv, sortInts_of_sorted _ (sortInts_sorted _)] at hS
+    exact ⟨i, hS, hvv, hl⟩
+
+section OrderModes
+variable {f : DddmpFile} {i2p levels : List (Tok × Int)} {roots : List Int}
+
+/-- with `.orderedvarnames`: the loaded manager declares exactly that list, in that order -/
+theorem DddmpLoaded.of_ordered {m : Mgr} (h : dddmpHeader f = .ok (i2p, levels, roots))
+    (hH : DddmpHeaderOK f) {ov : List Tok} (ho : f.orderedvarnames = some ov)
+    (hL : DddmpLoaded levels m) :
+    m.nvars = ov.length ∧ ∀ (k : Nat) (var : Tok), ov[k]? = some var →
+      m.tbl.vars[var.show]? = some k ∧ m.tbl.l2v[k]? = some var.show := by
+  have hond : ov.Nodup := by have := hH.ordered; rw [ho] at this; exact this
+  rw [levels_ordered_eq h ho] at hL
+  exact hL.ordered hond
+
+/-- without `.orderedvarnames`: the loaded manager declares the `.suppvarnames`, the `j`-th
+of them at the rank of `permids[j]` among the `.permids` (gaps closed, relative order kept) -/
+theorem DddmpLoaded.of_supp {m : Mgr} (h : dddmpHeader f = .ok (i2p, levels, roots))
+    (hH : DddmpHeaderOK f) (hv3 : f.varinfo ≠ some 3) (ho : f.orderedvarnames = none)
+    {sv : List Tok} (hs : f.suppvarnames = some sv) {permids : List Int}
+    (hp : f.permids = some permids) (hL : DddmpLoaded levels m) :
+    m.nvars = permids.length ∧ ∀ (j : Nat) (var : Tok) (k : Int), sv[j]? = some var →
+      permids[j]? = some k → ∃ i : Nat, (sortInts permids)[i]? = some k ∧
+        m.tbl.vars[var.show]? = some i ∧ m.tbl.l2v[i]? = some var.show := by
+  obtain ⟨ids, permids', _, hi, hp', _, _, _, _⟩ := dddmpHeader_inv h
+  rw [hp] at hp'
+  cases hp'
+  obtain ⟨_, hlens, _⟩ := dddmpHeader_lengths h hi hp
+  have hlen' := hlens sv hs
+  have hsnd : sv.Nodup := by have := hH.supp ho; rw [hs] at this; exact this
+  have hpnd : permids.Nodup := by have := hH.permids hv3; rw [hp] at this; exact this
+  cases hpm : permids with
+  | nil =>
+    subst hpm
+    have hsv : sv = [] := by
+      cases sv with
+      | nil => rfl
+      | cons a l => simp at hlen'
+    subst hsv
+    have hlv : levels = [] := by
+      obtain ⟨_, permids2, _, _, hp2, _, _, hLv, _⟩ := dddmpHeader_inv h
+      rw [hp] at hp2
+      cases hp2
+      simp [dddmpLevels, ho, hs, sortInts, dictOf, pure, Except.pure] at hLv
+      exact hLv
+    refine ⟨by rw [hL.nvars, hlv]; rfl, ?_⟩
+    intro j var k hj
+    simp at hj
+  | cons p0 prest =>
+    have hj0 : permids[0]? = some p0 := by rw [hpm]; rfl
+    have h0sv : 0 < sv.length := by rw [← hlen', hpm]; simp
+    obtain ⟨-, -, hvals⟩ := levels_supp h ho hs hp hsnd hpnd hlen' hj0
+      (List.getElem?_eq_getElem h0sv)
+    obtain ⟨hn, hr⟩ := hL.supp hvals
+    rw [← hpm]
+    refine ⟨hn, ?_⟩
+    intro j var k hjv hjk
+    obtain ⟨hm, -, -⟩ := levels_supp h ho hs hp hsnd hpnd hlen' hjk hjv
+    exact hr var k hm
+
+end OrderModes
+
+/-! ### the roots, for an arbitrary statement of the file's semantics -/
+
+/-- `DddmpRootsDenote` with the semantics `ev` -/
+def DddmpRootsDenoteBy (ev : (String → Bool) → Int → Bool) (f : DddmpFile) (m : Mgr) : Prop :=
+  (∀ ρ ∈ f.rootids.getD [], ∃ r ∈ m.roots, m.tbl.Mem r ∧
+      ∀ α, den m.tbl r (asgOf m.tbl α) = ev α ρ) ∧
+  (∀ r ∈ m.roots, ∃ ρ ∈ f.rootids.getD [],
+      ∀ α, den m.tbl r (asgOf m.tbl α) = ev α ρ)
+
+theorem dddmpRootsDenote_iff (f : DddmpFile) (m : Mgr) :
+    DddmpRootsDenote f m ↔ DddmpRootsDenoteBy (evalFile f) f m := Iff.rfl
+
 end DD
